@@ -11,7 +11,7 @@ Record pcase := mkPC {
   q_prog : list action;       (* the program's statements as actions (orders taken from this run's trace) *)
   q_fin : action;             (* the auto-COMMIT, with the orders observed *)
   q_ord : list N;             (* order in which the deferred release closed what was left *)
-  q_signal : bool;            (* a signal was injected: the run may have been cancelled at any step *)
+  q_signal : bool;            (* a signal or a failing system call was injected: the run may have failed at any step *)
   q_obs : list op;            (* calls observed *)
   q_snap : fs;                (* directory after the process ended *)
   q_absent : list N;          (* tables created by a transaction that certainly did not commit *)
@@ -28,13 +28,15 @@ Definition set_fail (a : action) (j : nat) : action :=
   | ACommit a b c _ => ACommit a b c (Some j)
   | x => x
   end.
-Definition fail_points : list nat := [0; 1; 2; 3; 4; 5; 6]%nat.
+Definition fail_points : list nat := [0; 1; 2; 3]%nat.
+Definition commit_fail_points : list nat := seq 0 26.
+Definition points_of (a : action) : list nat := match a with ACommit _ _ _ _ => commit_fail_points | _ => fail_points end.
 
 (* every way a cancellation can end the program: before statement i, or inside it at point j *)
 Fixpoint cancel_variants (pre rest : list action) : list (list action) :=
   match rest with
   | [] => []
-  | a :: r => (pre ++ [AError]) :: map (fun j => pre ++ [set_fail a j; AError]) fail_points
+  | a :: r => (pre ++ [AError]) :: map (fun j => pre ++ [set_fail a j; AError]) (points_of a)
               ++ cancel_variants (pre ++ [a]) r
   end.
 
@@ -42,7 +44,7 @@ Definition candidates (c : pcase) : list (list action * action) :=
   (q_prog c, q_fin c)
   :: if q_signal c
      then map (fun p => (p, q_fin c)) (cancel_variants [] (q_prog c))
-          ++ map (fun j => (q_prog c, set_fail (q_fin c) j)) fail_points
+          ++ map (fun j => (q_prog c, set_fail (q_fin c) j)) commit_fail_points
      else [].
 
 Definition model_run (c : pcase) (cand : list action * action) : pst :=
